@@ -21,7 +21,7 @@ CHECKS = {
    note="Trusted: payload code and h/rfc. UDP delivery is synchronous, so no virtual time is needed."),
  "C12": dict(level="exploration", ref="DESIGN.md §3 C12",
    technique="scripted neighbour against a real stack on a resolution-required harness link in virtual time: ARP/NDP replies decoded by the independent codec, a reference neighbour table, and the exact virtual-time schedule of resolution requests",
-   text="ARP requests/replies (own, foreign, malformed), learning and non-learning, expiry after virtual minutes, overwrite, cache overflow and ring wrap-around during a wait; UDP writes and TCP connects toward unresolved next hops with the neighbour answering the 1st/2nd/3rd request or never: no data before resolution, requests 1 s apart, at most three, then proceed to the learned MAC or fail with the no-link-address error; IPv6 NS/NA; an own address is removed and re-assigned while requests arrive (a removed address must go unanswered).",
+   text="ARP requests/replies (own, foreign, malformed), learning and non-learning, expiry after virtual minutes, overwrite, cache overflow and ring wrap-around during a wait; UDP writes and TCP connects toward unresolved next hops with the neighbour answering the 1st/2nd/3rd request or never: no data before resolution, requests 1 s apart, at most three, then proceed to the learned MAC or fail with the no-link-address error; IPv6 NS/NA; an own address is removed and re-assigned while requests arrive (a removed address must go unanswered). Racing phase under the race detector: announcements with unique serial-numbered link addresses race cache lookups and waker removals; reported addresses are judged from logical stamps (right neighbour, announced before the lookup returned, not older than the newest announcement completed before it began).",
    note="Trusted: virtual time (synctest); reference table in h/c12."),
  "C13": dict(level="exploration", ref="DESIGN.md §3 C13",
    technique="request/reply matching at the tap in virtual time: unique (id, seq, payload) echo requests built by the independent codec, replies decoded and checksum-verified by it",
